@@ -14,7 +14,7 @@ var RuleEdits = []string{
 	"paramArrayNoItems", "paramNestedArrayNoItems", "headerArrayNoItems", "schemaArrayNoItems",
 	"requiredUndefined", "unresolvableDefinitionRef", "unresolvableParameterRef", "unresolvableResponseRef",
 	"dupInheritedProperty", "circularAncestry", "overlappingPaths",
-	"invalidPatternParam", "invalidPatternHeader", "invalidPatternSchema", "invalidPatternItems",
+	"invalidPatternParam", "invalidPatternNonStringParam", "unresolvableAllOfRef", "invalidPatternHeader", "invalidPatternSchema", "invalidPatternItems",
 	"missingPaths", "emptyPlaceholder",
 }
 
@@ -421,6 +421,27 @@ func ApplyRuleEdit(t *rapid.T, name string, doc map[string]any, info *SpecInfo) 
 		op := operationOf(doc, oi)
 		op["parameters"] = append(paramsOf(op), map[string]any{"name": "pat", "in": "query", "type": "string", "pattern": "(unclosed"})
 		return true
+	case "invalidPatternNonStringParam":
+		// an uncompilable pattern on a parameter that is not a string (the pattern keyword is out of place there, but still must be valid)
+		oi, ok := pickOp(t, info, nil)
+		if !ok {
+			return false
+		}
+		op := operationOf(doc, oi)
+		op["parameters"] = append(paramsOf(op), map[string]any{"name": "patInt", "in": "query", "type": rapid.SampledFrom([]string{"integer", "number", "boolean"}).Draw(t, "nonstringtype"), "pattern": "(unclosed"})
+		return true
+	case "unresolvableAllOfRef":
+		// a definition inheriting (allOf) from a parent that does not exist
+		defs, keys := sortedDefs(doc)
+		for _, k := range keys {
+			d, _ := defs[k].(map[string]any)
+			if _, isAllOf := d["allOf"]; isAllOf {
+				continue
+			}
+			defs[k] = map[string]any{"allOf": []any{map[string]any{"$ref": "#/definitions/NoSuchParent"}, d}}
+			return true
+		}
+		return false
 	case "invalidPatternHeader":
 		oi, ok := pickOp(t, info, func(o OpInfo) bool { return firstInlineResponse(operationOf(doc, o)) != nil })
 		if !ok {
